@@ -215,7 +215,7 @@ class C10(EngineProp):
     level_note = 'Trusted: as C07. A channel is terminated when both directions are closed (the library\'s half-close semantics, pinned by the suite).'
     design_ref = '§5 C10'
     rule = ('as C07; at quiescence the stream table and fragment cache of the endpoint are read and every interaction that terminated (by the definition in DESIGN §5 C10) must be '
-            'absent; terminated peer-opened ids are then re-used by a probe request')
+            'absent; terminated peer-opened ids are then re-used by a probe request; up to two request-responses / streams still being served are then cancelled by the peer and their ids re-used right behind the CANCEL, in the same read (the interaction ends when the CANCEL is processed, not when a later callback runs); plus two real endpoints on a driven link (pair mode)')
     assumptions = ['quiescence = the deterministic loop is idle']
 
     def cases(self, rng, tier):
@@ -277,7 +277,20 @@ class C10(EngineProp):
             H.apply({'op': 'recv', 'frame': {'ty': 'REQUEST_FNF', 'sid': sid, 'data': [251]}, 'beh': 'k'})
         await loop.settle()
         H.poll_futures()
-        return {'probes': probes[:4]}
+        # ... and at once: the peer cancels a request-response / stream that is still being served and uses the id again in the same read,
+        # before the event loop has run any callback (the interaction ended when its CANCEL was processed)
+        at_once = []
+        table = set(H.ep._stream_control._streams.keys())
+        for oid, o in enumerate(H.objs):
+            if o['sid'] in table and o['sid'] not in at_once and o['sid'] not in probes and len([1 for x in H.objs if x.get('sid') == o['sid']]) == 1:
+                if (o['kind'] == 'rrResp' and not o['fut'].done()) or o['kind'] == 'stResp':
+                    at_once.append(o['sid'])
+        for sid in at_once[:2]:
+            H.apply({'op': 'recv', 'frame': {'ty': 'CANCEL', 'sid': sid}, 'beh': 'k'})
+            H.apply({'op': 'recv', 'frame': {'ty': 'REQUEST_FNF', 'sid': sid, 'data': [252]}, 'beh': 'k'})
+        await loop.settle()
+        H.poll_futures()
+        return {'probes': probes[:4] + at_once[:2], 'at_once': at_once[:2]}
 
     def oracle(self, case, obs):
         fails = []
@@ -311,7 +324,8 @@ class C10(EngineProp):
             for sid in obs['extra']['probes']:
                 ok = any(m.startswith('RECV:REQUEST_FNF:%d:' % sid) and any(t.startswith('HC:REQUEST_FNF') for t in outs) for m, outs in obs['steps'])
                 if not ok:
-                    fails.append({'signature': 'terminated-id-not-reusable', 'what': 'a new request on the terminated stream id %d was not accepted' % sid})
+                    fails.append({'signature': 'terminated-id-not-reusable', 'what': 'a new request on the terminated stream id %d was not accepted%s' % (
+                        sid, ' (sent right behind the CANCEL that ended the previous interaction, in the same read)' if sid in obs['extra'].get('at_once', []) else '')})
         return fails
 
 
